@@ -321,6 +321,8 @@ def o_valoff(case):
         raise Fail("validate0-raised", f"validate=0 with CRC bytes {crc.hex()}: {type(e).__name__}: {e}") from e
     if crc != frame[-3:]:
         _must_reject(frame, alt, f"wrong CRC bytes {crc.hex()} (after the same bytes were parsed with validate=0)")
+    if bytes(m.serialize()) != bytes(good.serialize()):
+        raise Fail("validate0-differs", f"CRC bytes {crc.hex()} changed what the parsed message serialises to ({bytes(m.serialize())[-3:].hex()} vs {bytes(good.serialize())[-3:].hex()})")
     if m.payload != good.payload or pub(m) != pub(good) or m.identity != good.identity:
         raise Fail("validate0-differs", f"CRC bytes {crc.hex()} changed the parse result of {frame.hex()[:60]}..")
     for lm in (2,):
